@@ -177,7 +177,15 @@ def main(argv=None):
     import vf.chx  # noqa: F401  (import before forking; nothing is analysed in the parent)
     import jsonschema  # noqa: F401
     rng = random.Random(seed)
-    conds.sort(key=lambda c: -c.get("timeout", 60))
+    # longest first, by the cost measured in an earlier run where there is one (costs/<prop>.json, committed), else by budget
+    costs = {}
+    cpath = os.path.join(ROOT, "costs", "%s.json" % prop)
+    if os.path.exists(cpath):
+        try:
+            costs = json.load(open(cpath))
+        except Exception:
+            costs = {}
+    conds.sort(key=lambda c: -costs.get(c["id"], c.get("timeout", 60) / 20.0))
     tasks = [dict(cond=c, mode="prove", want=None, timeout=c.get("timeout", 60), attempt=1) for c in conds]
     wt = []
     if not args.no_witness:
@@ -364,6 +372,11 @@ def main(argv=None):
         cov["traces_validated_against_impl"] += xtra.get("validated", 0)
         cov["samples"] = (xtra.get("samples", []) + cov["samples"])[:40]
         ev["violations"] = len(violations)
+    if not args.only and rc == 0:
+        os.makedirs(os.path.join(ROOT, "costs"), exist_ok=True)
+        costs.update({cid: results[cid]["wall_s"] for cid in by_id if cid in results})
+        with open(cpath, "w") as f:
+            json.dump(costs, f, indent=0, sort_keys=True)
     if not args.only:
         with open(os.path.join(ROOT, "evidence", "%s.json" % prop), "w") as f:
             json.dump(ev, f, indent=1)
